@@ -167,7 +167,8 @@ def run(out, tier, rng, work):
                 'competitor with a lower/higher NAME on a second stack that makes it lose or keep its address; 3-10 calls of send_pgn / '
                 'send_message / send_request (incl. the address-claim PGN) spread over the whole history; oracle: a call in a non-operational '
                 'state raises and emits nothing (request for EE00 goes out from 254), frames of an operational CA carry its held address; '
-                'handler logs replayed on the Coq model; non-trivial = calls observed in at least two claim states or in NORMAL')
+                'handler logs replayed on the Coq model; non-trivial = calls observed in at least two claim states or in NORMAL'
+                ' Includes CAs created with claiming bypassed but without an address.')
     out.assumptions = ['A1-A6 of DESIGN.md section 3', 'in-flight multi-packet sessions of a CA that loses its address mid-transfer are not examined']
     sprop.run_stateful(out, 'C13', tier, rng, work, FILES, gen, oracle, 150, 2500, nontrivial,
                        sample=lambda sc, res: dict(ca=sc['stacks'][0]['cas'][0], script=sc['script'][:5],
